@@ -1,4 +1,4 @@
-package fakes
+package fakes12
 
 import (
 	"sync"
